@@ -7,6 +7,8 @@ usage: variants.py [-p C16] [-j 8] [--json out.json] [names...]
 Variants live in /verif/variants/<prop>/*.json:
   {"file": "x/..../f.go", "old": "...", "new": "...", "expect_rule": "O1", "expect_construct": "substr",
    "note": "..."}      (several edits: "edits": [{"file","old","new"}, ...])
+  {"...edits...", "expect": "clean"}: a behaviour-preserving refactor; the check must exit 0 without a report
+   (status clean_ok, else false_alarm).
 A variant whose `old` text is no longer present exactly once is `skipped` (tree was edited), not failed.
 """
 import argparse, json, os, subprocess, sys, tempfile, shutil, glob, concurrent.futures as cf
@@ -49,6 +51,11 @@ def run_variant(path):
         if "LOAD-ERROR" in out:
             return dict(name=name, prop=prop, status="invalid", why=[l for l in out.splitlines() if "LOAD-ERROR" in l][0][:300])
         reports = [l for l in out.splitlines() if l.startswith("REPORT ")]
+        if v.get("expect") == "clean":
+            # a behaviour-preserving edit: the check must stay silent
+            if p.returncode == 0 and not reports:
+                return dict(name=name, prop=prop, status="clean_ok")
+            return dict(name=name, prop=prop, status="false_alarm", rc=p.returncode, reports=[l[:300] for l in reports][:5])
         hit = [l for l in reports if (" %s " % v["expect_rule"]) in l and v.get("expect_construct", "") in l]
         if p.returncode == 1 and hit:
             return dict(name=name, prop=prop, status="detected", report=hit[0][:300], other_reports=len(reports) - len(hit))
@@ -75,7 +82,7 @@ def main():
         for r in ex.map(run_variant, files):
             res.append(r)
             print("%-9s %s/%s %s" % (r["status"].upper(), r["prop"], r["name"], r.get("report") or r.get("why") or r.get("reports") or ""))
-    summ = {k: sum(1 for r in res if r["status"] == k) for k in ("detected", "missed", "skipped", "invalid")}
+    summ = {k: sum(1 for r in res if r["status"] == k) for k in ("detected", "missed", "skipped", "invalid", "clean_ok", "false_alarm")}
     summ["applied"] = summ["detected"] + summ["missed"]
     print("SELFTEST", json.dumps(summ))
     if a.json:
